@@ -613,6 +613,13 @@ pub fn find_iface<'a>(pkgs: &'a [Pkg], id: &str) -> Option<&'a Iface> {
 /// derived from the first (each interface keeps its items and may gain functions), plus
 /// optionally one on a different track.
 pub fn gen_pkgs(rng: &mut Rng, opts: &LibOpts, names: &mut Names) -> Vec<Pkg> {
+    // one library in three draws its type names from a small pool, so that different interfaces
+    // define types (and resources) of the same name and `use` has to rename them
+    let mut opts = opts.clone();
+    if !opts.iface.reuse_names && rng.chance(1, 3) {
+        opts.iface.reuse_names = true;
+    }
+    let opts = &opts;
     let mut pkgs = Vec::new();
     let versioned = opts.versions && rng.chance(2, 3);
     let base_version = if versioned {
